@@ -13,7 +13,7 @@ from tfv.data import Tree
 from tfv.impl import Harness, clean_registry, fresh_schema_name
 from tfv.model import canon, print_document
 from tfv.mutate import mutants
-from tfv.props import c01, c02, c18
+from tfv.props import c01, c02, c15, c18
 
 ID = "C16"
 LEVEL = "exploration"
@@ -70,7 +70,31 @@ def build_pool(c, schema, plan):
         pool.append(r)
     while len(pool) < c.int(6, 10):
         r0, spec, ex = c.choice(base)
-        kind = c.weighted([(3, "invalid"), (2, "syntax"), (2, "other_vars"), (2, "bytes"), (2, "faulty"), (1, "other_op")])
+        kind = c.weighted([(3, "invalid"), (2, "syntax"), (2, "other_vars"), (2, "bytes"), (2, "faulty"), (1, "other_op"), (2, "introspection"), (2, "typo_in_variable")])
+        if kind == "introspection":
+            ir = c15.introspection_request(c, schema, dict(r0, doc=spec["doc"]))
+            r = copy.deepcopy(r0)
+            r.update(kind="introspection", query=print_document(ir["doc"]).text, op=None, variables={}, faults=[])
+            pool.append(r)
+            continue
+        if kind == "typo_in_variable":
+            # an input-object variable with a misspelt field (the engine then suggests close names)
+            ops = [d for d in spec["doc"]["defs"] if d["k"] == "op"]
+            op = next((d for d in ops if d.get("name") == r0["op"]), ops[0])
+            cands = [v for v in op.get("vars") or () if schema["types"].get(v["type"].strip("[]!"), {}).get("kind") == "INPUT"]
+            if not cands:
+                continue
+            v = cands[c.int(0, len(cands) - 1)]
+            fields = list(schema["types"][v["type"].strip("[]!")]["fields"])
+            typo = c.choice([fields[0][:-1], fields[0] + "x", "f"])
+            val = {typo: 1}
+            for _ in range(v["type"].count("[")):
+                val = [val]
+            r = copy.deepcopy(r0)
+            r["kind"] = "typo_in_variable"
+            r["variables"] = dict(r0["variables"] or {}, **{v["name"]: val})
+            pool.append(r)
+            continue
         r = copy.deepcopy(r0)
         r["kind"] = kind
         if kind == "invalid":
@@ -119,9 +143,12 @@ def send(h, schema, r):
         q = bytes.fromhex(q["$bytes"])
 
     async def go():
-        return await h.engine.execute(q, operation_name=r["op"], context=h.ctx_token, variables=copy.deepcopy(r["variables"]), initial_value=h.root_value(schema["roots"]["query"]))
+        return await h.engine.execute(q, operation_name=r["op"], context=h.ctx_token, variables=copy.deepcopy(c02.effective_variables(r)), initial_value=h.root_value(schema["roots"]["query"]))
 
-    return canon(core.jsonable(run_async(go())))
+    resp = run_async(go())
+    out = canon(core.jsonable(resp))
+    core.scribble(resp, "c16")
+    return out
 
 
 class World:
@@ -152,6 +179,7 @@ class World:
             got = send(h, self.schema, self.pool[i])
             if got != ref:
                 spec = {"schema": self.schema, "plan": self.plan, "pool": self.pool, "history": list(self.history)}
+                _STATS["last_violation"] = _STATS.get("last_violation") or Violation(spec, "cache %r answered request #%d differently from a fresh uncached engine after history %r" % (kind, i, self.history))
                 raise Violation(spec, "engine with cache %r answered request #%d (%s) differently from a fresh uncached engine after history %r\n cached:   %s\n uncached: %s\nquery=%r op=%r variables=%r" % (
                     kind, i, self.pool[i]["kind"], self.history, got[:1500], ref[:1500], self.pool[i]["query"], self.pool[i]["op"], self.pool[i]["variables"]), tag="cache")
 
@@ -167,7 +195,7 @@ class World:
         return any(self.pool[j]["query"] != self.pool[i]["query"] for j in between)
 
 
-_STATS = {"stats": None, "tier": "quick"}
+_STATS = {"stats": None, "tier": "quick", "last_violation": None}
 
 
 class CacheMachine(RuleBasedStateMachine):
@@ -178,7 +206,9 @@ class CacheMachine(RuleBasedStateMachine):
     @initialize(data=st.data())
     def setup(self, data):
         c = HChooser(data)
-        schema, plan = c01.build_schema(c)
+        schema, plan = c01.build_schema(c, {"max_inputs": 3})
+        if c.maybe(25):
+            schema["schema_dirs"] = [{"name": "nonIntrospectable", "args": []}]
         pool = build_pool(c, schema, plan)
         self.world = World(schema, plan, pool, _STATS["tier"] == "thorough")
 
@@ -216,6 +246,12 @@ def run_worker(seed, tier, index, nworkers):
         run_state_machine_as_test(hypothesis.seed(seed)(CacheMachine), settings=settings)
     except Violation as v:
         viol = v
+    except BaseException as e:  # noqa
+        if _STATS.get("last_violation") is not None and type(e).__name__.startswith("Flaky"):
+            viol = _STATS["last_violation"]
+            viol.message = "(not reproducible on immediate re-execution: the engine keeps state across requests/engines) " + viol.message
+        else:
+            raise
     out = stats.export()
     out["violations"] = [{"spec": core.jsonable(viol.spec), "message": viol.message}] if viol else []
     return out
